@@ -55,12 +55,14 @@ pub struct Instance {
 
 #[derive(Clone, Debug, Serialize, Deserialize, PartialEq)]
 pub struct ClientPlan {
+    #[serde(default)]
+    pub focus: String,
     pub knobs: KnobSpec,
     pub channel_buffer_size: usize,
     pub instances: Vec<Instance>,
 }
 
-pub fn gen_plan(rng: &mut Rng, thorough: bool) -> ClientPlan {
+pub fn gen_plan(rng: &mut Rng, focus: &str, thorough: bool) -> ClientPlan {
     let mut knobs = if rng.chance(1, 5) { KnobSpec::calm() } else { KnobSpec::draw(rng) };
     // With socket buffers of a few bytes the client's command loop (which does not read while it
     // sends) and the server's session loop (which does not read while it answers) block each
@@ -77,7 +79,8 @@ pub fn gen_plan(rng: &mut Rng, thorough: bool) -> ClientPlan {
             let mut calls = vec![];
             for _ in 0..n {
                 let k = rng.below(3) as u8;
-                let c = match rng.below(26) {
+                let roll = if focus == "C02" && rng.chance(2, 3) { 22 } else { rng.below(26) };
+                let c = match roll {
                     0..=4 => Call::Set { k },
                     5 => Call::SetAsync { k },
                     6..=8 => Call::Get { k },
@@ -121,6 +124,7 @@ pub fn gen_plan(rng: &mut Rng, thorough: bool) -> ClientPlan {
         });
     }
     ClientPlan {
+        focus: focus.to_owned(),
         knobs,
         channel_buffer_size: *rng.pick(&[1usize, 4, 1000, 1000]),
         instances,
